@@ -177,7 +177,11 @@ def run(run):
                 for lim in (((1.2, 2.0, 4.0) if fname == "ramp4" else (2.0, 4.0, 3)) if quick else (1.2, 1.5, 2.0, 4.0, 8.0, 3)):
                     cfg = {"constraint": "PAPRConstraint", "complex": cplx, "ndim": len(shape), "family": fname, "limit": lim}
                     try:
-                        y = K.PAPRConstraint(max_papr=lim)(x)
+                        pc = K.PAPRConstraint(max_papr=lim)
+                        if (len(shape) + int(cplx)) % 2 == 1:
+                            pc.eval()                 # every other configuration with the module in eval mode
+                            cfg["mode"] = "eval"
+                        y = pc(x)
                         for b, (xi, yi) in enumerate(zip(items_of(x), items_of(y))):
                             p2 = (yi.abs() ** 2).double()
                             papr = float(p2.max() / p2.mean())
@@ -203,6 +207,28 @@ def run(run):
                         except Exception as ex:
                             add({"ev": "Papr", "raised": True, "error": repr(ex)[:100]}, "PAPRConstraint", cfg2)
                         run.case(("papr-rowscaled", cplx, shape, fname, lim), nontrivial=True)
+    # tight limits on well-behaved (Gaussian, uniform, OFDM-like) signals, the module in training and in eval mode
+    for cplx in (False, True):
+        fams_t = families(rng, 256, cplx)
+        for fname in ("gaussian", "uniform", "ofdm"):
+            for shape in ((256,), (4, 64)):
+                for lim in (1.25, 1.5):
+                    for mode in ("train", "eval"):
+                        x = fams_t[fname].reshape(shape)
+                        cfg = {"constraint": "PAPRConstraint", "complex": cplx, "ndim": len(shape), "family": fname, "limit": lim, "mode": mode}
+                        try:
+                            pc = K.PAPRConstraint(max_papr=lim)
+                            if mode == "eval":
+                                pc.eval()
+                            y = pc(x)
+                            for b, (xi, yi) in enumerate(zip(items_of(x), items_of(y))):
+                                p2 = (yi.abs() ** 2).double()
+                                q2 = (xi.abs() ** 2).double()
+                                add({"ev": "Papr", "raised": False, "papr_ppm": sint(min(float(p2.max() / p2.mean()) / lim, 2000.0) * 1e6),
+                                     "frac20_ppm": sint(float((q2 >= q2.max() / 100.0).double().mean()) * 1e6), "shape_ok": tuple(y.shape) == tuple(x.shape)}, "PAPRConstraint", dict(cfg, item=b))
+                        except Exception as ex:
+                            add({"ev": "Papr", "raised": True, "error": repr(ex)[:100]}, "PAPRConstraint", cfg)
+                        run.case(("papr-tight", cplx, shape, fname, lim, mode), nontrivial=True)
     # ---------------------------------------------------------------- composites: order and equality with sequential application
     pool = [("total", lambda: K.TotalPowerConstraint(2.0)), ("avg", lambda: K.AveragePowerConstraint(0.3)), ("peak", lambda: K.PeakAmplitudeConstraint(0.8)),
             ("papr", lambda: K.PAPRConstraint(max_papr=3.0)), ("identity", lambda: K.IdentityConstraint()),
